@@ -200,7 +200,7 @@ type Interp struct {
 	Stats *Stats
 	workerID int
 
-	lazyErrT, nativeErrT, nativeObjT types.Type
+	lazyErrT, nativeErrT, nativeObjT, rtypeT types.Type
 	curFrame *frame
 	env map[string]string
 	mapOrderOverride string
